@@ -438,4 +438,65 @@ example : kernelVersion "6.12" = some 396288 := by decide
 example : kernelVersion "6.9.300" = some 395775 := by decide
 example : kernelVersion "x.1" = none := by decide
 
+/-! ### the legacy alias `file.fd` of `file.set.0.fd` (num_files_post_hook, fdset_clear_hook, file_fd_post_hook) -/
+
+theorem isUnder_self (ns : List Node) (a f : Nat) (hf : f ≠ 0) : isUnder ns a f a = true := by
+  cases f with
+  | zero => exact absurd rfl hf
+  | succ k => simp [isUnder]
+
+/-- **a one-file set keeps its legacy descriptor**: the alias rule of `file.set.number` changes nothing when the new size is 1. -/
+theorem numFilesAlias_one (h : HashFn) (st : St) (dict : Nat) : numFilesAlias h st dict 1 = st := by
+  simp [numFilesAlias]
+
+/-- **a set that is not one file has no legacy descriptor**: after the alias rule for a size other than 1 (0 = the set was
+    emptied, or more than one file) `file.fd` reports no value. -/
+theorem fileFd_unset_unless_one (h : HashFn) (st : St) (dict n a : Nat) (hn : n ≠ 1) (hnext : st.next ≠ 0)
+    (ha : lookup h st dict (some "file.fd") = some a) :
+    ∀ m ∈ (numFilesAlias h st dict n).nodes, m.id = a → m.isset = false := by
+  intro m hm hid
+  have hne : (n != 1) = true := by simp [bne_iff_ne, hn]
+  unfold numFilesAlias at hm
+  rw [if_pos hne] at hm
+  unfold clearFileFd at hm
+  rw [ha] at hm
+  exact clear_subtree_unset st a m hm (by rw [hid]; exact isUnder_self _ _ _ hnext)
+
+/-- **clearing slot 0 clears the alias**: when the cleared subtree holds `file.set.0.fd`, `file.fd` reports no value afterwards. -/
+theorem clearHooked_clears_alias (h : HashFn) (st : St) (dict a f fd : Nat)
+    (hf : lookup h st dict (some "file.set.0.fd") = some f) (hu : isUnder st.nodes a st.next f = true)
+    (hfd : lookup h (clearAttr st a) dict (some "file.fd") = some fd) (hnext : (clearAttr st a).next ≠ 0) :
+    ∀ m ∈ (clearHooked h st dict a).nodes, m.id = fd → m.isset = false := by
+  intro m hm hid
+  unfold clearHooked at hm
+  simp only [hf, hu, if_true] at hm
+  unfold clearFileFd at hm
+  rw [hfd] at hm
+  exact clear_subtree_unset _ fd m hm (by rw [hid]; exact isUnder_self _ _ _ hnext)
+
+/-- **clearing elsewhere leaves the alias alone**: `clearHooked` is `clearAttr` when slot 0's descriptor is not in the subtree. -/
+theorem clearHooked_frame (h : HashFn) (st : St) (dict a f : Nat)
+    (hf : lookup h st dict (some "file.set.0.fd") = some f) (hu : isUnder st.nodes a st.next f = false) :
+    clearHooked h st dict a = clearAttr st a := by
+  unfold clearHooked
+  simp [hf, hu]
+
+/-- **the value set through `file.fd` is there afterwards** (the repaired file_fd_post_hook): whatever the open did to the
+    file set, every node that is `file.fd` reports a value after `setFileFd`. -/
+theorem setFileFd_alias_set (h : HashFn) (st : St) (dict a : Nat) (tok : String) (prov : List Provided) (n : Node)
+    (ha : lookup h st dict (some "file.fd") = some a) (hn : st.get a = some n) (hv : hasValue n tok = false) :
+    ∀ m ∈ (setFileFd h st dict tok prov).nodes, m.id = a → m.isset = true := by
+  intro m hm hid
+  unfold setFileFd at hm
+  rw [ha] at hm
+  simp only [hn, hv, Bool.false_eq_true, if_false] at hm
+  rw [upd, List.mem_map] at hm
+  obtain ⟨m0, _, hm0⟩ := hm
+  by_cases hc : (m0.id == a) = true
+  · simp only [hc, if_true] at hm0; rw [← hm0]
+  · have hc' : (m0.id == a) = false := by simpa using hc
+    simp only [hc', Bool.false_eq_true, if_false] at hm0
+    rw [← hm0] at hid
+    simp [hid] at hc
+
 end Kdf.Props.C13
